@@ -6,3 +6,6 @@ import MiniconfVerif.Props.C06
 #print axioms MiniconfVerif.C06.buffers_suffice
 #print axioms MiniconfVerif.C06.node_len_le_max
 #print axioms MiniconfVerif.C06.path_buffer_suffices
+#print axioms MiniconfVerif.C06.source_internal_is_model
+#print axioms MiniconfVerif.C06.source_internal_array_is_model
+#print axioms MiniconfVerif.C06.source_leaf_and_max_length
